@@ -14,6 +14,8 @@ import Bridge.Abs
 import Bridge.Quotient
 import PtaProofs.Lemmas.Build
 import PtaProofs.Lemmas.LimitVerdict
+import Bridge.ScanLimit
+import PtaProofs.Lemmas.ScanLimit
 namespace Pta.C09
 open Pta PtaSpec
 
@@ -129,5 +131,263 @@ theorem verdict_not_preserved_related :
     exB.wf = true ∧ exRrel.namesIn exB = true ∧ ruleAbove 1 exRrel = true ∧ exRrel.strict = false ∧
     verdictOf (fun _ _ => false) (archGraph exB) (compile exRrel) = .pass ∧
     verdictOf (fun _ _ => false) (archGraphLim exB (some 1)) (compile exRrel) = .fail := by decide
+
+/-! ### the scan entry point: `generate_graph(level_limit = k)` against `generate_graph(level_limit = None)`
+
+`o.noLimit` is `o` with `levelLimit := none`; `shiftedLimit o mp` is the limit the constructor receives
+(`k + len(module_path below root_path)`).  Both runs hand the same module list and the same import records to the
+graph constructor; no well-formedness of names, tree or statements is assumed, externals may be included. -/
+
+/-- whether the scan fails does not depend on the level limit -/
+theorem scan_error_indep (mt : Str → Str → Bool) (base rootName : Str) (mp : List Str) (entries : List Entry)
+    (o : ScanOptions) (e : ErrKind) :
+    generateGraph mt base rootName mp entries o = .error e ↔
+      generateGraph mt base rootName mp entries o.noLimit = .error e :=
+  Pta.ScanLimit.error_indep_lemma mt base rootName mp entries o e
+
+/-- nodes of the limited graph = flattened nodes of the full graph -/
+theorem scan_quotient_nodes (mt : Str → Str → Bool) (base rootName : Str) (mp : List Str) (entries : List Entry)
+    (o : ScanOptions) (g g0 : PGraph Str)
+    (hg : generateGraph mt base rootName mp entries o = .ok g)
+    (hg0 : generateGraph mt base rootName mp entries o.noLimit = .ok g0) (s : Str) :
+    s ∈ g.nodes ↔ ∃ n ∈ g0.nodes, s = flattenNode (shiftedLimit o mp) n :=
+  (Pta.ScanLimit.scan_quotient_lemma mt base rootName mp entries o g g0 hg hg0).1 s
+
+/-- hierarchy edges of the limited graph = flattened hierarchy edges of the full graph whose ends stay distinct -/
+theorem scan_quotient_hier (mt : Str → Str → Bool) (base rootName : Str) (mp : List Str) (entries : List Entry)
+    (o : ScanOptions) (g g0 : PGraph Str)
+    (hg : generateGraph mt base rootName mp entries o = .ok g)
+    (hg0 : generateGraph mt base rootName mp entries o.noLimit = .ok g0) (a b : Str) :
+    (a, b) ∈ g.hierPairs ↔
+      ∃ u v, (u, v) ∈ g0.hierPairs ∧ a = flattenNode (shiftedLimit o mp) u ∧ b = flattenNode (shiftedLimit o mp) v ∧ a ≠ b :=
+  (Pta.ScanLimit.scan_quotient_lemma mt base rootName mp entries o g g0 hg hg0).2.1 a b
+
+/-- import edges, unconditional half: a flattened import edge of the full graph whose ends stay distinct and which
+    does not land on a parent→child pair is an import edge of the limited graph; and no import edge of the limited
+    graph is a self edge or a parent→child pair -/
+theorem scan_quotient_imports_sup (mt : Str → Str → Bool) (base rootName : Str) (mp : List Str) (entries : List Entry)
+    (o : ScanOptions) (g g0 : PGraph Str)
+    (hg : generateGraph mt base rootName mp entries o = .ok g)
+    (hg0 : generateGraph mt base rootName mp entries o.noLimit = .ok g0) (a b : Str) :
+    ((a ≠ b ∧ isHierPair a b = false ∧
+        ∃ u v, (u, v) ∈ g0.importPairs ∧ a = flattenNode (shiftedLimit o mp) u ∧ b = flattenNode (shiftedLimit o mp) v) →
+      (a, b) ∈ g.importPairs) ∧
+    ((a, b) ∈ g.importPairs → a ≠ b ∧ isHierPair a b = false) :=
+  ⟨(Pta.ScanLimit.scan_quotient_lemma mt base rootName mp entries o g g0 hg hg0).2.2.1 a b,
+   (Pta.ScanLimit.scan_quotient_lemma mt base rootName mp entries o g g0 hg hg0).2.2.2.1 a b⟩
+
+/-- import edges, exactly, in terms of the import records `R` handed to the constructor (no hypothesis) -/
+theorem scan_imports_exact (mt : Str → Str → Bool) (base rootName : Str) (mp : List Str) (entries : List Entry)
+    (o : ScanOptions) (g g0 : PGraph Str)
+    (hg : generateGraph mt base rootName mp entries o = .ok g)
+    (hg0 : generateGraph mt base rootName mp entries o.noLimit = .ok g0)
+    (R : List ImportRec) (hR : scanRetained mt base rootName mp entries o = .ok R) (a b : Str) :
+    (a, b) ∈ g.importPairs ↔
+      a ≠ b ∧ isHierPair a b = false ∧ a ∈ g.nodes ∧ b ∈ g.nodes ∧
+      ∃ i ∈ R, a = flattenNode (shiftedLimit o mp) i.importer ∧ b = flattenNode (shiftedLimit o mp) i.importee :=
+  ((Pta.ScanLimit.scan_quotient_lemma mt base rootName mp entries o g g0 hg hg0).2.2.2.2 R hR).1 a b
+
+/-- C09 for scans, import edges: if no import is dangling (`danglingFree`: every importee handed to the constructor is
+    a node of the full graph), then `a` imports `b` in the limited graph exactly when some module flattening to `a`
+    imports some module flattening to `b` in the full graph, `a ≠ b`, and `(a, b)` is not a parent→child pair
+    (such a pair is the hierarchy edge, see `collision_iff` for when this happens) -/
+theorem scan_quotient_imports (mt : Str → Str → Bool) (base rootName : Str) (mp : List Str) (entries : List Entry)
+    (o : ScanOptions) (g g0 : PGraph Str)
+    (hg : generateGraph mt base rootName mp entries o = .ok g)
+    (hg0 : generateGraph mt base rootName mp entries o.noLimit = .ok g0)
+    (R : List ImportRec) (hR : scanRetained mt base rootName mp entries o = .ok R)
+    (hnd : danglingFree R g0 = true) (a b : Str) :
+    (a, b) ∈ g.importPairs ↔
+      a ≠ b ∧ isHierPair a b = false ∧
+      ∃ u v, (u, v) ∈ g0.importPairs ∧ a = flattenNode (shiftedLimit o mp) u ∧ b = flattenNode (shiftedLimit o mp) v := by
+  have h := Pta.ScanLimit.scan_quotient_lemma mt base rootName mp entries o g g0 hg hg0
+  exact ⟨fun hab => ⟨(h.2.2.2.1 a b hab).1, (h.2.2.2.1 a b hab).2, (h.2.2.2.2 R hR).2 hnd a b hab⟩, h.2.2.1 a b⟩
+
+/-- `isHierPair` is the immediate-parent relation on dotted names -/
+theorem isHierPair_spec (s e : Str) : isHierPair s e = true ↔ ∃ t, '.' ∉ t ∧ e = s ++ '.' :: t :=
+  Pta.ScanLimit.isHierPair_iff s e
+
+/-- when a flattened pair lands on a parent→child pair: exactly when the importer has `j` components (it sits one
+    level above the cut `j + 1`, so it is not truncated) and the importee lies strictly below it — at least two levels
+    below, the pair not being parent→child itself.  For scans the importer is a file, so this needs a module `x.py`
+    with nodes below the name `x` (a directory `x` next to `x.py`, or dotted file names). -/
+theorem collision_iff (j : Nat) (u v : Str) (hnp : isHierPair u v = false) :
+    isHierPair (flattenNode (some j) u) (flattenNode (some j) v) = true ↔
+      isStrictSub u v = true ∧ (splitDots u).length = j := by
+  rw [Pta.ScanLimit.isHierPair_iff]
+  exact Pta.ScanLimit.collision_iff j u v (by rw [← Pta.ScanLimit.isHierPair_iff, hnp]; simp)
+
+/-- importers that are leaves of the module tree never import downwards -/
+theorem noDownward_of_leafImporters (mt : Str → Str → Bool) (base rootName : Str) (mp : List Str) (entries : List Entry)
+    (o : ScanOptions) (g0 : PGraph Str)
+    (hg0 : generateGraph mt base rootName mp entries o.noLimit = .ok g0)
+    (R : List ImportRec) (hR : scanRetained mt base rootName mp entries o = .ok R)
+    (hleaf : leafImporters R g0 = true) : noDownwardImports g0 = true :=
+  Pta.ScanLimit.noDownward_of_leaf_lemma mt base rootName mp entries o g0 hg0 R hR hleaf
+
+/-- … and importers are leaves as soon as the modules of the parsed `.py` files are -/
+theorem leafImporters_of_leafFiles (mt : Str → Str → Bool) (base rootName : Str) (mp : List Str) (entries : List Entry)
+    (o : ScanOptions) (g0 : PGraph Str) (R : List ImportRec)
+    (hR : scanRetained mt base rootName mp entries o = .ok R)
+    (hleaf : leafFiles (scanParsed mt base rootName mp entries o).files g0 = true) : leafImporters R g0 = true :=
+  Pta.ScanLimit.leafImporters_of_files_lemma mt base rootName mp entries o g0 R hR hleaf
+
+/-- every importer handed to the constructor is the module of a parsed file -/
+theorem importers_are_files (mt : Str → Str → Bool) (base rootName : Str) (mp : List Str) (entries : List Entry)
+    (o : ScanOptions) (R : List ImportRec) (hR : scanRetained mt base rootName mp entries o = .ok R) :
+    ∀ i ∈ R, ∃ f ∈ (scanParsed mt base rootName mp entries o).files, i.importer = f.1 :=
+  Pta.ScanLimit.scan_importer_file mt base rootName mp entries o R hR
+
+/-- C09 for scans, the property text verbatim: no dangling import and no import from a module into its own subtree
+    (e.g. importers are leaves: no `x.py` next to a directory `x`). Then `a` imports `b` in the limited graph exactly
+    when some module truncating to `a` imports some module truncating to `b` and `a ≠ b`. -/
+theorem scan_quotient_imports_clean (mt : Str → Str → Bool) (base rootName : Str) (mp : List Str) (entries : List Entry)
+    (o : ScanOptions) (g g0 : PGraph Str)
+    (hg : generateGraph mt base rootName mp entries o = .ok g)
+    (hg0 : generateGraph mt base rootName mp entries o.noLimit = .ok g0)
+    (R : List ImportRec) (hR : scanRetained mt base rootName mp entries o = .ok R)
+    (hnd : danglingFree R g0 = true) (hdown : noDownwardImports g0 = true) (a b : Str) :
+    (a, b) ∈ g.importPairs ↔
+      a ≠ b ∧ ∃ u v, (u, v) ∈ g0.importPairs ∧ a = flattenNode (shiftedLimit o mp) u ∧ b = flattenNode (shiftedLimit o mp) v := by
+  rw [scan_quotient_imports mt base rootName mp entries o g g0 hg hg0 R hR hnd a b]
+  constructor
+  · rintro ⟨h1, -, h3⟩; exact ⟨h1, h3⟩
+  · rintro ⟨h1, u, v, huv, rfl, rfl⟩
+    exact ⟨h1, Pta.ScanLimit.no_collision_lemma mt base rootName mp entries o g0 hg0 hdown u v huv, u, v, huv, rfl, rfl⟩
+
+/-- "truncated to k levels below module_path": the constructor's limit is `k + len(module_path)`, so a module
+    `root.mp.rest` keeps the first `k` components of `rest` … -/
+theorem flatten_is_truncation (o : ScanOptions) (k : Nat) (hk : o.levelLimit = some k) (root : Comp) (mp rest : List Comp)
+    (hwf : nameWF (root :: mp ++ rest) = true) :
+    flattenNode (shiftedLimit o mp) (render (root :: mp ++ rest)) = render (root :: mp ++ rest.take k) :=
+  Pta.ScanLimit.flatten_below_lemma o k hk root mp rest hwf
+
+/-- … while `module_path` and its ancestors are unchanged -/
+theorem flatten_above_unchanged (o : ScanOptions) (root : Comp) (mp : List Comp) (j : Nat)
+    (hwf : nameWF (root :: mp) = true) :
+    flattenNode (shiftedLimit o mp) (render (root :: mp.take j)) = render (root :: mp.take j) :=
+  Pta.ScanLimit.flatten_above_lemma o root mp j hwf
+
+/-- on every string the constructor's flattening is "keep the first `j + 1` components" -/
+theorem flatten_def (j : Nat) (s : Str) : flattenNode (some j) s = joinDots ((splitDots s).take (j + 1)) := rfl
+
+/-! #### non-vacuity: `module_path = r/app` below `root_path = r`, limit 1 -/
+namespace ScanEx
+
+def mt0 : Str → Str → Bool := fun _ _ => false
+def S (s : String) : Str := s.toList
+
+/-- r/app/{a/x.py, b/y/z.py, c.py};  x: `import app.b.y.z` (completed to `r.app.b.y.z`);  z: `from ... import c` -/
+def ents : List Entry := [
+  { rel := [S "app"], isDir := true },
+  { rel := [S "app", S "a"], isDir := true },
+  { rel := [S "app", S "a", S "x.py"], isDir := false, stmts := [.imp [S "app.b.y.z"]] },
+  { rel := [S "app", S "b"], isDir := true },
+  { rel := [S "app", S "b", S "y"], isDir := true },
+  { rel := [S "app", S "b", S "y", S "z.py"], isDir := false, stmts := [.impFrom none [S "c"] 3] },
+  { rel := [S "app", S "c.py"], isDir := false } ]
+def o1 : ScanOptions := { exclusions := .globs [], levelLimit := some 1 }
+def run (es : List Entry) (mp : List Str) (o : ScanOptions) : PGraph Str :=
+  match generateGraph mt0 (S "/r") (S "r") mp es o with
+  | .ok g => g
+  | .error _ => PGraph.empty
+def recs (es : List Entry) (mp : List Str) (o : ScanOptions) : List ImportRec :=
+  match scanRetained mt0 (S "/r") (S "r") mp es o with
+  | .ok R => R
+  | .error _ => []
+
+set_option maxRecDepth 100000 in
+example : generateGraph mt0 (S "/r") (S "r") [S "app"] ents o1 = .ok (run ents [S "app"] o1) ∧
+    generateGraph mt0 (S "/r") (S "r") [S "app"] ents o1.noLimit = .ok (run ents [S "app"] o1.noLimit) ∧
+    scanRetained mt0 (S "/r") (S "r") [S "app"] ents o1 = .ok (recs ents [S "app"] o1) := ⟨by rfl, by rfl, by rfl⟩
+example : shiftedLimit o1 [S "app"] = some 2 := rfl
+-- the hypotheses of `scan_quotient_imports` and `scan_quotient_imports_clean`
+set_option maxRecDepth 100000 in
+example : danglingFree (recs ents [S "app"] o1) (run ents [S "app"] o1.noLimit) = true ∧
+    leafImporters (recs ents [S "app"] o1) (run ents [S "app"] o1.noLimit) = true ∧
+    leafFiles (scanParsed mt0 (S "/r") (S "r") [S "app"] ents o1).files (run ents [S "app"] o1.noLimit) = true ∧
+    noDownwardImports (run ents [S "app"] o1.noLimit) = true := by decide
+-- the full graph …
+set_option maxRecDepth 100000 in
+example : (run ents [S "app"] o1.noLimit).nodes =
+      [S "r.app", S "r", S "r.app.a", S "r.app.a.x", S "r.app.b", S "r.app.b.y", S "r.app.b.y.z", S "r.app.c"] ∧
+    (run ents [S "app"] o1.noLimit).importPairs = [(S "r.app.a.x", S "r.app.b.y.z"), (S "r.app.b.y.z", S "r.app.c")] := by
+  decide
+-- … and its quotient: every name cut to one level below `r.app`
+set_option maxRecDepth 100000 in
+example : (run ents [S "app"] o1).nodes = [S "r.app", S "r", S "r.app.a", S "r.app.b", S "r.app.c"] ∧
+    (run ents [S "app"] o1).importPairs = [(S "r.app.a", S "r.app.b"), (S "r.app.b", S "r.app.c")] ∧
+    (run ents [S "app"] o1).hierPairs = [(S "r", S "r.app"), (S "r.app", S "r.app.a"), (S "r.app", S "r.app.b"), (S "r.app", S "r.app.c")] := by
+  decide
+example : nameWF [S "r", S "app", S "b", S "y", S "z"] = true ∧
+    flattenNode (shiftedLimit o1 [S "app"]) (S "r.app.b.y.z") = S "r.app.b" := by decide
+
+/-! #### a dangling import: the converse direction fails without `danglingFree`
+
+`c.py` additionally does `import r.app.a.gone` (no such module: not a `.py` file, excluded, or a typo).  The full
+graph has no edge for it (the constructor requires both ends to be nodes), but with limit 1 the importee is cut to the
+existing package `r.app.a` and the edge `r.app.c → r.app.a` appears. -/
+def entsD : List Entry := ents.dropLast ++ [{ rel := [S "app", S "c.py"], isDir := false, stmts := [.imp [S "r.app.a.gone"]] }]
+
+set_option maxRecDepth 100000 in
+theorem dangling_facts :
+    generateGraph mt0 (S "/r") (S "r") [S "app"] entsD o1 = .ok (run entsD [S "app"] o1) ∧
+    generateGraph mt0 (S "/r") (S "r") [S "app"] entsD o1.noLimit = .ok (run entsD [S "app"] o1.noLimit) ∧
+    (S "r.app.c", S "r.app.a") ∈ (run entsD [S "app"] o1).importPairs ∧
+    (run entsD [S "app"] o1.noLimit).importPairs = [(S "r.app.a.x", S "r.app.b.y.z"), (S "r.app.b.y.z", S "r.app.c")] ∧
+    danglingFree (recs entsD [S "app"] o1) (run entsD [S "app"] o1.noLimit) = false := by
+  refine ⟨by rfl, by rfl, by decide, by decide, by decide⟩
+
+end ScanEx
+
+/-- the property text read as an equivalence on the scan graphs, without side condition -/
+def ScanQuotientImports_Statement : Prop :=
+  ∀ (mt : Str → Str → Bool) (base rootName : Str) (mp : List Str) (entries : List Entry) (o : ScanOptions)
+    (g g0 : PGraph Str),
+    generateGraph mt base rootName mp entries o = .ok g →
+    generateGraph mt base rootName mp entries o.noLimit = .ok g0 →
+    ∀ a b, (a, b) ∈ g.importPairs ↔
+      a ≠ b ∧ isHierPair a b = false ∧
+      ∃ u v, (u, v) ∈ g0.importPairs ∧ a = flattenNode (shiftedLimit o mp) u ∧ b = flattenNode (shiftedLimit o mp) v
+
+/-- it is FALSE of the model (and of the library: `_create_edge` tests `has_node` AFTER flattening): the limited graph
+    has the edge `r.app.c → r.app.a`, which is the image of no import edge of the full graph -/
+theorem scanQuotientImports_counterexample : ¬ ScanQuotientImports_Statement := by
+  intro h
+  obtain ⟨h1, h2, h3, h4, -⟩ := ScanEx.dangling_facts
+  obtain ⟨-, -, u, v, huv, hu, hv⟩ := (h _ _ _ _ _ _ _ _ h1 h2 (ScanEx.S "r.app.c") (ScanEx.S "r.app.a")).1 h3
+  rw [h4] at huv
+  simp only [List.mem_cons, Prod.mk.injEq, List.not_mem_nil, or_false] at huv
+  rcases huv with ⟨rfl, rfl⟩ | ⟨rfl, rfl⟩
+  · exact absurd hu (by decide)
+  · exact absurd hu (by decide)
+
+/-! #### a collision: `x.py` next to a directory `x`, limit 2
+
+`r/x.py` does `import r.x.y.z`; `r.x` is also the package `r/x`.  In the full graph `r.x → r.x.y.z` is an import edge;
+cut to three components it becomes `r.x → r.x.y`, a parent→child pair, which stays the hierarchy edge: the limited
+graph has no import edge although the quotient has one with distinct ends. -/
+namespace CollEx
+open ScanEx
+def ents : List Entry := [
+  { rel := [S "x.py"], isDir := false, stmts := [.imp [S "r.x.y.z"]] },
+  { rel := [S "x"], isDir := true },
+  { rel := [S "x", S "y"], isDir := true },
+  { rel := [S "x", S "y", S "z.py"], isDir := false } ]
+def o2 : ScanOptions := { exclusions := .globs [], levelLimit := some 2 }
+
+set_option maxRecDepth 100000 in
+theorem collision_facts :
+    generateGraph mt0 (S "/r") (S "r") [] ents o2 = .ok (run ents [] o2) ∧
+    generateGraph mt0 (S "/r") (S "r") [] ents o2.noLimit = .ok (run ents [] o2.noLimit) ∧
+    (run ents [] o2.noLimit).importPairs = [(S "r.x", S "r.x.y.z")] ∧
+    (run ents [] o2).importPairs = [] ∧
+    (S "r.x", S "r.x.y") ∈ (run ents [] o2).hierPairs ∧
+    flattenNode (shiftedLimit o2 []) (S "r.x") = S "r.x" ∧ flattenNode (shiftedLimit o2 []) (S "r.x.y.z") = S "r.x.y" ∧
+    danglingFree (recs ents [] o2) (run ents [] o2.noLimit) = true ∧
+    noDownwardImports (run ents [] o2.noLimit) = false ∧
+    isStrictSub (S "r.x") (S "r.x.y.z") = true ∧ (splitDots (S "r.x")).length = 2 := by
+  refine ⟨by rfl, by rfl, by decide, by decide, by decide, by decide, by decide, by decide, by decide, by decide, by decide⟩
+end CollEx
 
 end Pta.C09
